@@ -93,6 +93,14 @@ def run(repo: Repo, rep: Report, tier: str) -> None:
     rep.need(len(loops) == 1, f"{fq}: matching loop vanished")
     lp = loops[0]
     okord = all(s.lineno < lp.lineno for s in binds)
+    # candidates may only be *added* before the role filters run: anything added later is never role-checked
+    adds = [c for c in walk_no_nested(gv) if isinstance(c, ast.Call) and isinstance(c.func, ast.Attribute) and norm(c.func.value) == cand and c.func.attr in ("extend", "append", "insert")]
+    role_ifs = [i for i in walk_no_nested(gv) if isinstance(i, ast.If) and norm(i.test) in ("role == 'scu'", "role == 'scp'", "'scu' == role", "'scp' == role")]
+    rebinds_after = [s for s in binds if role_ifs and s.lineno > max(i.lineno for i in role_ifs) and not (isinstance(s.value, ast.ListComp) and norm(s.value.generators[0].iter) == cand)]
+    for c in adds:
+        okadd = bool(role_ifs) and all(c.lineno < i.lineno for i in role_ifs)
+        rep.check(okadd, "selector", fq, enclosing(c, (ast.stmt,)), "candidates are added after the role filter ran: the added contexts (the UPS substitutions) are never checked for as_scu / as_scp, so a request can go out on a context where the local side does not hold the role", mod=am, node=c)
+    rep.check(not rebinds_after, "selector", fq, f"candidate list rebuilt after the role filter: {[norm(s)[:60] for s in rebinds_after]}", "the role filter must be the last restriction before matching", mod=am, node=gv)
     rep.check(okord, "selector", fq, "all candidate filters precede the matching loop", "a filter applied after the loop does not constrain what the loop returns", mod=am, node=lp)
     lv = norm(lp.target)
     tsdef = [s for s in lp.body if isinstance(s, ast.Assign) and norm(s.value) == f"{lv}.transfer_syntax[0]"]
@@ -156,8 +164,13 @@ def run(repo: Repo, rep: Report, tier: str) -> None:
         ts_src = norm(tsd[0].value) if len(tsd) == 1 else None
         codec_objs = set()
         for c in walk_no_nested(fn):
-            if isinstance(c, ast.Call) and isinstance(c.func, ast.Name) and c.func.id in ("encode", "decode") and len(c.args) > 1 and isinstance(strip_cast(c.args[1]), ast.Attribute):
-                codec_objs.add(norm(strip_cast(c.args[1]).value))
+            if isinstance(c, ast.Call) and isinstance(c.func, ast.Name) and c.func.id in ("encode", "decode") and len(c.args) > 1:
+                for a_ in list(c.args[1:4]) + [k.value for k in c.keywords]:
+                    a_ = strip_cast(a_)
+                    if isinstance(a_, ast.Attribute):
+                        codec_objs.add(norm(a_.value))
+                    elif not isinstance(a_, ast.Constant):
+                        codec_objs.add(norm(a_))
         wraps = [c for c in walk_no_nested(fn) if isinstance(c, ast.Call) and norm(c.func) in ("self._wrap_find_responses", "self._wrap_get_move_responses", "self._check_received_status")]
         records[name] = dict(cvar=cvar, role=role_v, sop=sop, sop_in_req=sop_in_req, sent_on=sent_on, ts_src=ts_src, codec=sorted(codec_objs))
         # role
